@@ -45,6 +45,8 @@ pub struct GRow {
     pub plus_syn: bool,
     pub drop_syn_column: bool,
     pub escape: usize, // 0 = never, k = escape about one character in k
+    /// 0 = none, 1 = one trailing comma, n = n-1 further columns
+    pub extra_cols: usize,
 }
 
 #[derive(Clone, Debug)]
@@ -73,7 +75,7 @@ const BASE_POS: &[[&str; 6]] = &[
 
 const CHARS: &[char] = &[
     'a', 'b', 'z', '0', '7', 'あ', 'い', 'ア', 'ー', '東', '京', '漢', 'é', 'ｱ', '𠮷', '😀', '\u{10FFFF}', '\u{FFFF}', '\u{E000}',
-    '\u{D7FF}', ',', '/', '"', ' ', '\u{3000}', '*', '\\', 'u', '{', '}', 'U', '\u{7f}', '\u{80}', '\u{7ff}', '\u{800}', '\n',
+    '\u{D7FF}', ',', '/', '"', ' ', '\u{3000}', '*', '\\', 'u', '{', '}', 'U', '\u{7f}', '\u{80}', '\u{7ff}', '\u{800}', '\n', '\r', '\u{feff}',
     // characters a CSV reader can be configured to treat specially (comment, other delimiters/quotes): they are plain text here
     '#', ';', '\t', '\'',
 ];
@@ -156,12 +158,89 @@ fn esc_text(rng: &mut Rng, s: &str, k: usize, force: &[char]) -> String {
     out
 }
 
-fn csv_field(s: &str) -> String {
-    if s.contains(',') || s.contains('"') || s.contains('\n') || s.contains('\r') {
-        format!("\"{}\"", s.replace('"', "\"\""))
-    } else {
-        s.to_string()
+/// does the field need RFC 4180 quotes for the reader `LexiconReader::read_bytes` configures?
+fn needs_quotes(s: &str) -> bool {
+    s.contains(',') || s.contains('"') || s.contains('\n') || s.contains('\r')
+}
+
+fn quoted(s: &str) -> String {
+    format!("\"{}\"", s.replace('"', "\"\""))
+}
+
+/// how the rows of one CSV file are written (every shape is the same list of records to an RFC 4180 reader with
+/// `,` / `"` / no comments / no trimming / `\r`, `\n`, `\r\n` terminators / flexible record lengths)
+#[derive(Clone, Debug, Default)]
+pub struct CsvStyle {
+    pub bom: bool,
+    /// 0 = quotes only where needed, 1 = every field quoted, 2 = random unneeded quotes
+    pub quoting: usize,
+    /// 0 = `\n` (some `\r\n`), 1 = all `\r\n`, 2 = all bare `\r`, 3 = mixed
+    pub term: usize,
+    pub blank_lines: bool,
+    pub no_final_newline: bool,
+    pub trailing_blank: bool,
+    /// a `"` inside an unquoted field that does not start with one is plain text for csv-core
+    pub bare_inner_quote: bool,
+}
+
+fn gen_style(rng: &mut Rng) -> CsvStyle {
+    if rng.chance(1, 2) { return CsvStyle::default(); }
+    CsvStyle {
+        bom: rng.chance(1, 5),
+        quoting: if rng.chance(1, 2) { 0 } else { rng.range(1, 2) },
+        term: rng.below(4),
+        blank_lines: rng.chance(1, 4),
+        no_final_newline: rng.chance(1, 5),
+        trailing_blank: rng.chance(1, 5),
+        bare_inner_quote: rng.chance(1, 4),
     }
+}
+
+/// the CSV text of the given records (fields are final texts); counts the shapes produced into `tags`
+fn render_csv(rng: &mut Rng, rows: &[Vec<String>], st: &CsvStyle, tags: &mut Vec<String>) -> (String, Vec<usize>) {
+    let mut out = String::new();
+    let mut bounds = vec![];
+    if st.bom { out.push('\u{feff}'); tags.push("csv:bom".into()); }
+    let n = rows.len();
+    for (ri, f) in rows.iter().enumerate() {
+        let mut first = true;
+        for x in f {
+            if !first { out.push(','); }
+            let need = needs_quotes(x);
+            let inner_only = x.contains('"') && !x.starts_with('"') && !x.contains(',') && !x.contains('\n') && !x.contains('\r');
+            let text = if need && st.bare_inner_quote && inner_only && rng.chance(1, 2) { tags.push("csv:bare-inner-quote".into()); x.clone() }
+                else if need { if x.contains('\n') || x.contains('\r') { tags.push("csv:embedded-newline".into()); }
+                               if x.contains('"') { tags.push("csv:embedded-quote".into()); }
+                               if x.contains(',') { tags.push("csv:embedded-comma".into()); }
+                               quoted(x) }
+                else if st.quoting == 1 || (st.quoting == 2 && rng.chance(1, 3)) { tags.push("csv:unneeded-quotes".into()); quoted(x) }
+                // a lone empty first field written bare would make the line empty (= no record): quote it
+                else if first && f.len() == 1 && x.is_empty() { quoted(x) }
+                else { x.clone() };
+            if first && text.starts_with('#') { tags.push("csv:leading-hash".into()); }
+            if first && ri == 0 && !st.bom && text.starts_with('\u{feff}') {
+                // a bare U+FEFF at the very start of the file IS a byte order mark to the reader: quote it
+                out.push_str(&quoted(x));
+            } else {
+                out.push_str(&text);
+            }
+            first = false;
+        }
+        let last = ri + 1 == n;
+        if last && st.no_final_newline && !f.last().map_or(true, |x| x.is_empty() && f.len() == 1) {
+            tags.push("csv:no-final-newline".into());
+            break;
+        }
+        let t = match st.term { 0 => if rng.chance(1, 8) { "\r\n" } else { "\n" }, 1 => "\r\n", 2 => "\r", _ => *rng.pick(&["\n", "\r\n", "\r"]) };
+        if t == "\r" { tags.push("csv:cr-terminator".into()); }
+        if t == "\r\n" { tags.push("csv:crlf-terminator".into()); }
+        out.push_str(t);
+        if st.blank_lines && rng.chance(1, 4) { tags.push("csv:blank-line".into()); out.push_str(*rng.pick(&["\n", "\r\n", "\n\n", "\r"])); }
+        if last && st.trailing_blank { tags.push("csv:trailing-blank".into()); out.push_str(*rng.pick(&["\n", "\r\n\r\n", "\n\n\n"])); }
+        // a bare `\r` may be completed by a `\n` that starts the next chunk: no boundary there
+        if !out.ends_with('\r') { bounds.push(out.len()); }
+    }
+    (out, bounds)
 }
 
 fn target_text(t: &Target, in_user: bool) -> String {
@@ -210,37 +289,47 @@ fn split_text(rng: &mut Rng, w: &World5, specs: &[SplitSpec], in_user: bool, k: 
         .join("/")
 }
 
-pub fn csv_of(rng: &mut Rng, w: &World5, d: &GDict, in_user: bool) -> String {
-    let mut out = String::new();
+pub fn csv_of(rng: &mut Rng, w: &World5, d: &GDict, in_user: bool, st: &CsvStyle, tags: &mut Vec<String>) -> (String, Vec<usize>) {
+    let mut rows: Vec<Vec<String>> = vec![];
     for r in &d.rows {
         let p = &w.pos[r.pos];
         let k = r.escape;
         let mut f: Vec<String> = vec![
-            csv_field(&esc_text(rng, &r.surface, k, &[])),
+            esc_text(rng, &r.surface, k, &[]),
             r.left.to_string(),
             r.right.to_string(),
             r.cost.to_string(),
-            csv_field(&esc_text(rng, &r.headword, k, &[])),
+            esc_text(rng, &r.headword, k, &[]),
         ];
         for x in p.iter() {
-            f.push(csv_field(&esc_text(rng, x, k, &[])));
+            f.push(esc_text(rng, x, k, &[]));
         }
-        f.push(csv_field(&esc_text(rng, &r.reading, k, &[])));
-        f.push(csv_field(&esc_text(rng, &r.norm, k, &[])));
+        f.push(esc_text(rng, &r.reading, k, &[]));
+        f.push(esc_text(rng, &r.norm, k, &[]));
         f.push(match &r.dic_form { None => "*".to_string(), Some(t) => target_text(t, in_user) });
         f.push(r.mode.to_string());
-        f.push(csv_field(&split_text(rng, w, &r.a, in_user, k)));
-        f.push(csv_field(&split_text(rng, w, &r.b, in_user, k)));
+        f.push(split_text(rng, w, &r.a, in_user, k));
+        f.push(split_text(rng, w, &r.b, in_user, k));
         f.push(if r.ws.is_empty() { "*".to_string() } else { r.ws.iter().map(|t| target_text(t, in_user)).collect::<Vec<_>>().join("/") });
         if !r.drop_syn_column {
             f.push(if r.syn.is_empty() { if rng.chance(1, 3) { String::new() } else { "*".to_string() } } else {
                 r.syn.iter().map(|x| if r.plus_syn { format!("+{}", x) } else { x.to_string() }).collect::<Vec<_>>().join("/")
             });
+            // columns after the 19th are ignored by parse_record
+            match r.extra_cols {
+                0 => {}
+                1 => { f.push(String::new()); tags.push("csv:trailing-comma".into()); }
+                n => { for j in 0..n - 1 { f.push(if j % 2 == 0 { "#x,\"y\"".to_string() } else { "9".to_string() }); } tags.push("csv:extra-columns".into()); }
+            }
+            tags.push(format!("cols:{}", if f.len() > 19 { "20+".to_string() } else { f.len().to_string() }));
+        } else {
+            // 18 columns; a trailing comma makes the 19th column the empty string (= no synonym groups)
+            if r.extra_cols == 1 { f.push(String::new()); tags.push("csv:trailing-comma".into()); tags.push("cols:18+comma".into()); }
+            else { tags.push("cols:18".into()); }
         }
-        out.push_str(&f.join(","));
-        out.push_str(if rng.chance(1, 8) { "\r\n" } else { "\n" });
+        rows.push(f);
     }
-    out
+    render_csv(rng, &rows, st, tags)
 }
 
 fn gen_matrix(rng: &mut Rng, nl: usize, nr: usize) -> GMatrix {
@@ -296,6 +385,10 @@ enum Profile {
     Tiny,
     /// an indexed row (left id >= 0) with right id -1: rejected by validate_entries since the D3 repair
     NegRight,
+    /// matrix sizes at the u8/i8 boundaries (127/128/255/256/257 ids on one side)
+    WideMatrix,
+    /// every CSV-special shape in one small file (k selects the style)
+    CsvShapes(usize),
 }
 
 fn gen_form(rng: &mut Rng, headword: &str, surface: &str, allow_empty: bool) -> String {
@@ -327,6 +420,7 @@ fn gen_row(rng: &mut Rng, npos: usize, idn: usize, pool: &[char], rich: bool) ->
         plus_syn: rng.chance(1, 10),
         drop_syn_column: false,
         escape: if rng.chance(1, 3) { rng.range(1, 4) } else { 0 },
+        extra_cols: if rng.chance(1, 10) { rng.range(1, 4) } else { 0 },
     }
 }
 
@@ -373,13 +467,18 @@ fn gen_world(rng: &mut Rng, profile: Profile) -> World5 {
     if let Profile::LenBoundary(n) = profile {
         pos.push([str_of_units(rng, n, PLAIN), "*".into(), str_of_units(rng, n + 1, PLAIN), "*".into(), "*".into(), str_of_units(rng, n - 1, PLAIN)]);
     }
-    let (nl, nr) = match rng.below(6) { 0 => (1, 1), 1 => { let n = rng.range(2, 6); (n, n) }, 2 => (rng.range(1, 3), rng.range(4, 9)), 3 => (rng.range(4, 12), rng.range(1, 3)), _ => (rng.range(2, 7), rng.range(2, 7)) };
+    let (nl, nr) = if profile == Profile::WideMatrix {
+        tags.push("wide-matrix");
+        let big = *rng.pick(&[127usize, 128, 255, 256, 257]);
+        let small = rng.range(1, 3);
+        if rng.chance(1, 2) { (big, small) } else { (small, big) }
+    } else { match rng.below(6) { 0 => (1, 1), 1 => { let n = rng.range(2, 6); (n, n) }, 2 => (rng.range(1, 3), rng.range(4, 9)), 3 => (rng.range(4, 12), rng.range(1, 3)), _ => (rng.range(2, 7), rng.range(2, 7)) } };
     if nl != nr { tags.push("non-square"); }
     let matrix = gen_matrix(rng, nl, nr);
     let idn = nl.min(nr);
     let k = rng.range(3, 7);
     let pool: Vec<char> = (0..k).map(|_| *rng.pick(PLAIN)).collect();
-    let size = match profile { Profile::Tiny | Profile::NegRight => rng.range(1, 3), Profile::Huge => 3, _ => rng.range(4, 40) };
+    let size = match profile { Profile::Tiny | Profile::NegRight => rng.range(1, 3), Profile::CsvShapes(_) => rng.range(3, 8), Profile::Huge => 3, _ => rng.range(4, 40) };
     let rich = !matches!(profile, Profile::Huge);
     let mut rows: Vec<GRow> = (0..size).map(|_| gen_row(rng, pos.len(), idn, &pool, rich)).collect();
     // at least one indexed row (the trie builder panics on an empty key set: D4, property C06)
@@ -417,6 +516,17 @@ fn gen_world(rng: &mut Rng, profile: Profile) -> World5 {
             rows[1].reading = rows[1].headword.clone();
             rows[1].norm = rows[1].headword.clone();
             for r in rows.iter_mut() { r.escape = 0; }
+        }
+        Profile::CsvShapes(_) => {
+            tags.push("csv-shapes");
+            let specials = ["#", "#東京", "\"", "\"\"", "a\"b", "\"a\"", ",", "a,b", "\n", "a\nb", "\r", "a\r\nb", "\u{feff}", "\u{feff}a", " a ", "\t", "'", ";", "#\"x\",\n"];
+            for (j, r) in rows.iter_mut().enumerate() {
+                let sp = specials[(j + rng.below(specials.len())) % specials.len()].to_string();
+                match rng.below(4) { 0 => r.surface = sp, 1 => { r.headword = sp }, 2 => { r.reading = sp }, _ => { r.surface = sp.clone(); r.headword = sp.clone(); r.norm = sp } }
+                r.escape = 0;
+                r.extra_cols = j % 4;
+            }
+            rows[0].surface = (*rng.pick(&["#", "#a", "\u{feff}", "\"", "a"])).to_string();
         }
         Profile::NegRight => {
             tags.push("neg-right");
@@ -497,7 +607,15 @@ fn gen_world(rng: &mut Rng, profile: Profile) -> World5 {
 // ---------------------------------------------------------------------------------------------
 // real implementation
 
+/// one `read_lexicon` call: an in-memory buffer or a file (memory-mapped by `LexiconReader::read_file`)
+enum Part<'a> { Bytes(&'a [u8]), File(&'a std::path::Path) }
+
 fn build(system: Option<&LoadedDictionary>, time: u64, desc: &str, matrix: Option<&[u8]>, csv: &[u8]) -> Result<Vec<u8>, String> {
+    build_parts(system, time, desc, matrix, &[Part::Bytes(csv)])
+}
+
+/// the lexicon given as several sources, read one after the other (`sudachi build` accepts several CSV files)
+fn build_parts(system: Option<&LoadedDictionary>, time: u64, desc: &str, matrix: Option<&[u8]>, parts: &[Part]) -> Result<Vec<u8>, String> {
     let pre = if system.is_some() { "u" } else { "" };
     let mut stage = "new";
     let r = catch(|| -> Result<Vec<u8>, &'static str> {
@@ -511,7 +629,12 @@ fn build(system: Option<&LoadedDictionary>, time: u64, desc: &str, matrix: Optio
                     b.read_conn(m).map_err(|_| "conn")?;
                 }
                 stage = "lexicon";
-                b.read_lexicon(csv).map_err(|_| "lexicon")?;
+                for p in parts {
+                    match p {
+                        Part::Bytes(c) => { b.read_lexicon(*c).map_err(|_| "lexicon")?; }
+                        Part::File(f) => { b.read_lexicon(*f).map_err(|_| "lexicon")?; }
+                    }
+                }
                 stage = "resolve";
                 b.resolve().map_err(|_| "resolve")?;
                 stage = "compile";
@@ -552,6 +675,67 @@ fn df_variant() -> &'static str {
             Err(_) => "cur",
         }
     })
+}
+
+/// Which `validate_entries` is linked (model variant `dfCheckId`): is the dictionary-form column of a USER dictionary
+/// checked against the system dictionary (`cur`: the code as it stands) or against the dictionary's own entries
+/// (`own`: candidate repair fix_D8b.patch)?  Behavioural probe: a one-word system dictionary and a two-row user
+/// dictionary whose first row names `1`: system word 1 does not exist (rejected by `cur`), own entry 1 does.
+fn dfv_variant() -> &'static str {
+    static V: std::sync::OnceLock<&'static str> = std::sync::OnceLock::new();
+    V.get_or_init(|| {
+        let row = |s: &str, df: &str| format!("{s},0,0,0,{s},名詞,普通名詞,一般,*,*,*,{s},{s},{df},A,*,*,*,*\n", s = s, df = df);
+        let sys = build(None, TIME0, "probe", Some(b"1 1\n0 0 0\n"), row("あ", "*").as_bytes());
+        let Ok(sb) = sys else { return "cur" };
+        let Some(sl) = DictionaryLoader::read_system_dictionary(&sb).ok().and_then(|l| l.to_loaded()) else { return "cur" };
+        let ucsv = format!("{}{}", row("い", "1"), row("う", "*"));
+        match build(Some(&sl), TIME0, "probe", None, ucsv.as_bytes()) { Ok(_) => "own", Err(_) => "cur" }
+    })
+}
+
+/// stack of the recompiling thread (default 256 MiB; VERIF_C05_STACK_KIB overrides, for experiments)
+fn thread_stack() -> usize {
+    std::env::var("VERIF_C05_STACK_KIB").ok().and_then(|v| v.parse::<usize>().ok()).map_or(256 << 20, |k| k << 10)
+}
+
+/// two independent 64-bit hashes and the length of a byte string (what the child process reports back)
+fn fingerprint(b: &[u8]) -> String {
+    let mut h1: u64 = 0xcbf29ce484222325;
+    let mut h2: u64 = 1469598103934665603 ^ 0x9e3779b97f4a7c15;
+    for &x in b {
+        h1 = (h1 ^ x as u64).wrapping_mul(0x100000001b3);
+        h2 = h2.rotate_left(5).wrapping_add(x as u64).wrapping_mul(0x2545F4914F6CDD1D);
+    }
+    format!("{}:{:016x}{:016x}", b.len(), h1, h2)
+}
+
+fn unhex(s: &str) -> Vec<u8> {
+    (0..s.len() / 2).map(|i| u8::from_str_radix(&s[2 * i..2 * i + 2], 16).unwrap_or(0)).collect()
+}
+
+/// `vharness C05CHILD --out DIR`: a fresh process compiles every input listed in DIR/c05_child_in.txt
+/// (`idx time desc mat csv [udesc ucsv]`, hex) once more and prints `idx <fingerprint sys> [<fingerprint usr>]`.
+pub fn child(dir: &str) {
+    let text = std::fs::read_to_string(format!("{}/c05_child_in.txt", dir)).unwrap_or_default();
+    let mut out = String::new();
+    for line in text.lines() {
+        let t: Vec<&str> = line.split(' ').collect();
+        if t.len() < 5 { continue; }
+        let time: u64 = t[1].parse().unwrap_or(0);
+        let desc = String::from_utf8(unhex(t[2])).unwrap_or_default();
+        let sys = build(None, time, &desc, Some(&unhex(t[3])), &unhex(t[4]));
+        let mut l = format!("{} {}", t[0], sys.as_ref().map(|b| fingerprint(b)).unwrap_or_else(|e| e.replace(' ', "_")));
+        if let (Ok(sb), true) = (&sys, t.len() >= 7) {
+            let udesc = String::from_utf8(unhex(t[5])).unwrap_or_default();
+            let u = catch(|| DictionaryLoader::read_system_dictionary(sb).ok().and_then(|l| l.to_loaded())).ok().flatten()
+                .map(|sl| build(Some(&sl), time, &udesc, None, &unhex(t[6])));
+            l.push(' ');
+            l.push_str(&match u { Some(Ok(b)) => fingerprint(&b), Some(Err(e)) => e.replace(' ', "_"), None => "noload".into() });
+        }
+        out.push_str(&l);
+        out.push('\n');
+    }
+    print!("{}", out);
 }
 
 fn records_of(csv: &[u8]) -> Option<String> {
@@ -755,7 +939,12 @@ fn check_dict(run: &mut Run, idx: usize, w: &World5, l: &Loaded, in_user: bool) 
     }
     for (i, r) in rows.iter().enumerate() {
         let mut bad: Vec<(String, String)> = vec![];
-        let exp_dic: String = match &r.dic_form { None => r.headword.clone(), Some(t) => row_of(w, t).headword.clone() };
+        // the entry the dictionary-form column names: for a user dictionary compiled by the candidate repair fix_D8b
+        // (variant dfv=own) both `N` and `UN` name the OWN entry N (an N beyond the own entries is refused by the compiler)
+        let exp_dic: String = match &r.dic_form {
+            None => r.headword.clone(),
+            Some(t) => if in_user && dfv_variant() == "own" { rows.get(t.idx).map_or(String::new(), |x| x.headword.clone()) } else { row_of(w, t).headword.clone() },
+        };
         match &l.words[d][i] {
             Err(e) => {
                 if in_user && r.dic_form.is_some() {
@@ -848,21 +1037,44 @@ the parameters of every word, LexiconSet::lookup of every source key; non-trivia
         Profile::Arrays(127), Profile::Arrays(128), Profile::Arrays(1), Profile::Arrays(126), Profile::Homographs(127), Profile::Homographs(128),
         Profile::Desc(255), Profile::Desc(256), Profile::Desc(257), Profile::Desc(0), Profile::UserRefs, Profile::UserDicForm, Profile::Escapes, Profile::Huge,
         Profile::UserRefs, Profile::UserDicForm, Profile::Escapes, Profile::UserRefs, Profile::NegRight,
+        Profile::CsvShapes(1), Profile::CsvShapes(2), Profile::CsvShapes(3), Profile::CsvShapes(4), Profile::CsvShapes(5), Profile::CsvShapes(6), Profile::WideMatrix, Profile::WideMatrix,
+        Profile::CsvShapes(7), Profile::CsvShapes(8),
     ];
     let n = run.opts.count;
     run.bump(&format!("variant:df={}", df_variant()));
+    run.bump(&format!("variant:dfv={}", dfv_variant()));
+    let mut child_jobs: Vec<(usize, String, String)> = vec![];
     for idx in 0..n {
         if !run.wants(idx) { continue; }
         let mut rng = Rng::for_case(run.opts.seed, idx);
         let profile = if idx < directed.len() { directed[idx] } else {
-            match rng.below(12) { 0 => Profile::LenBoundary(*rng.pick(&[126, 127, 128])), 1 => Profile::Escapes, 2 => Profile::UserRefs, 3 => Profile::Tiny,
-                4 => Profile::Arrays(*rng.pick(&[0, 1, 2, 126, 127])), _ => Profile::Random }
+            match rng.below(14) { 0 => Profile::LenBoundary(*rng.pick(&[126, 127, 128])), 1 => Profile::Escapes, 2 => Profile::UserRefs, 3 => Profile::Tiny,
+                4 => Profile::Arrays(*rng.pick(&[0, 1, 2, 126, 127])), 5 => Profile::CsvShapes(0), 6 => if rng.chance(1, 4) { Profile::WideMatrix } else { Profile::Random }, _ => Profile::Random }
         };
         let w = gen_world(&mut rng, profile);
         for t in &w.tags { run.bump(&format!("tag:{}", t)); }
         let time = if rng.chance(1, 4) { *rng.pick(&[0u64, 1, u32::MAX as u64, u32::MAX as u64 + 1, 253402300799]) } else { TIME0 + rng.below(1000) as u64 };
-        let csv = csv_of(&mut rng, &w, &w.sys, false);
-        let ucsv = w.usr.as_ref().map(|u| csv_of(&mut rng, &w, u, true));
+        // how the two CSV files are written: directed styles for the CsvShapes profiles, random otherwise
+        let style_of = |rng: &mut Rng| -> CsvStyle { match profile {
+            Profile::CsvShapes(1) => CsvStyle { quoting: 1, term: 1, ..Default::default() },
+            Profile::CsvShapes(2) => CsvStyle { bom: true, term: 2, trailing_blank: true, ..Default::default() },
+            Profile::CsvShapes(3) => CsvStyle { quoting: 2, term: 3, blank_lines: true, no_final_newline: true, ..Default::default() },
+            Profile::CsvShapes(4) => CsvStyle { bare_inner_quote: true, blank_lines: true, ..Default::default() },
+            Profile::CsvShapes(5) => CsvStyle { bom: true, quoting: 1, no_final_newline: true, ..Default::default() },
+            Profile::CsvShapes(6) => CsvStyle { term: 2, blank_lines: true, trailing_blank: true, bare_inner_quote: true, ..Default::default() },
+            Profile::CsvShapes(7) => CsvStyle::default(),
+            Profile::Huge => CsvStyle::default(),
+            _ => gen_style(rng),
+        } };
+        let mut ctags: Vec<String> = vec![];
+        let st = style_of(&mut rng);
+        let (csv, bounds) = csv_of(&mut rng, &w, &w.sys, false, &st, &mut ctags);
+        let ust = style_of(&mut rng);
+        let ucsv = w.usr.as_ref().map(|u| csv_of(&mut rng, &w, u, true, &ust, &mut ctags).0);
+        ctags.sort();
+        ctags.dedup();
+        for t in &ctags { run.bump(t); }
+        run.bump(&format!("matrix:{}", match (w.matrix.nl, w.matrix.nr) { (1, 1) => "1x1", (a, b) if a == b => "square", (a, b) if a > b => "more-left", _ => "more-right" }));
         let mtext = w.matrix.text.clone();
         // distinct keys (column 0) of the source rows, system rows first, in order of first appearance
         let mut keys: Vec<String> = vec![];
@@ -879,7 +1091,8 @@ the parameters of every word, LexiconSet::lookup of every source key; non-trivia
             (Some(r), Some(Some(u))) => (r, Some(u)),
             _ => { run.bump("generator:csv-unreadable"); continue; }
         };
-        let mut payload = format!("df={} time={} desc={} mat={} rows={}", df_variant(), time, hex(w.desc.as_bytes()), hex(mtext.as_bytes()), recs);
+        let mut payload = format!("df={} dfv={} time={} desc={} mat={} csv={}", df_variant(), dfv_variant(), time, hex(w.desc.as_bytes()), hex(mtext.as_bytes()), hex(csv.as_bytes()));
+        let mut rec_prefix = format!("rec={} ", recs);
         let mut answer;
         let mut loaded: Option<Loaded> = None;
         let mut bins: Option<(Vec<u8>, Option<Vec<u8>>)> = None;
@@ -902,7 +1115,8 @@ the parameters of every word, LexiconSet::lookup of every source key; non-trivia
                     match sl {
                         Ok(Some(sl)) => {
                             let u = build(Some(&sl), time, &w.udesc, None, ucsv.as_bytes());
-                            payload.push_str(&format!(" udesc={} urows={}", hex(w.udesc.as_bytes()), urecs));
+                            payload.push_str(&format!(" udesc={} ucsv={}", hex(w.udesc.as_bytes()), hex(ucsv.as_bytes())));
+                            rec_prefix.push_str(&format!("urec={} ", urecs));
                             match u {
                                 Err(e) => { answer = e.clone(); payload.push_str(" utrie="); run.bump(&format!("outcome:{}", e)); stop = true; }
                                 Ok(u) => {
@@ -925,6 +1139,7 @@ the parameters of every word, LexiconSet::lookup of every source key; non-trivia
                 }
             }
         }
+        let answer = format!("{}{}", rec_prefix, answer);
         run.case(idx, "dict", &payload, &answer, loaded.is_some());
         run.bump(&format!("rows:{}", (w.sys.rows.len() / 10) * 10));
 
@@ -974,19 +1189,55 @@ the parameters of every word, LexiconSet::lookup of every source key; non-trivia
             let total: usize = dicts.iter().map(|dd| dd.rows.iter().filter(|r| r.left >= 0 && key.as_bytes().starts_with(r.surface.as_bytes())).count()).sum();
             if res.len() != total { run.fail(idx, "c05:index:count", &format!("lookup({:?}) returns {} entries, {} rows are indexed prefixes", key, res.len(), total)); fails += 1; }
         }
-        // determinism: a second compilation of the same inputs
-        let again = build(None, time, &w.desc, Some(mtext.as_bytes()), csv.as_bytes());
+        // determinism: a second compilation of the same inputs, in ANOTHER THREAD (std's RandomState draws its keys per
+        // thread, so a hash-ordered container in the builder would iterate differently there); a third one happens in
+        // another PROCESS at the end of the run (child_jobs)
+        let again = std::thread::scope(|sc| std::thread::Builder::new().stack_size(thread_stack()).spawn_scoped(sc, || build(None, time, &w.desc, Some(mtext.as_bytes()), csv.as_bytes())).map(|h| h.join()))
+            .ok().and_then(|r| r.ok()).unwrap_or_else(|| Err("PANIC thread".into()));
         if again.as_ref().ok() != Some(sb) {
-            run.fail(idx, "c05:nondeterministic:system", "compiling the same inputs with the same timestamp twice gave different bytes");
+            run.fail(idx, "c05:nondeterministic:system", "compiling the same inputs with the same timestamp twice (second time in another thread) gave different bytes");
         }
         if let (Some(ub), Some(ucsv)) = (ub, &ucsv) {
             let sl = DictionaryLoader::read_system_dictionary(sb).ok().and_then(|l| l.to_loaded());
             if let Some(sl) = sl {
-                let again = build(Some(&sl), time, &w.udesc, None, ucsv.as_bytes());
+                let again = std::thread::scope(|sc| std::thread::Builder::new().stack_size(thread_stack()).spawn_scoped(sc, || build(Some(&sl), time, &w.udesc, None, ucsv.as_bytes())).map(|h| h.join()))
+                    .ok().and_then(|r| r.ok()).unwrap_or_else(|| Err("PANIC thread".into()));
                 if again.as_ref().ok() != Some(ub) {
-                    run.fail(idx, "c05:nondeterministic:user", "compiling the same user dictionary twice gave different bytes");
+                    run.fail(idx, "c05:nondeterministic:user", "compiling the same user dictionary twice (second time in another thread) gave different bytes");
                 }
             }
+        }
+        run.bump("determinism:thread-recompiles");
+        // rarely used entry points: the same lexicon given as TWO sources (read_lexicon twice, cut at a record boundary;
+        // `sudachi build` takes several CSV files) and as a FILE (LexiconReader::read_file, memory-mapped) must give the same bytes
+        if idx % 3 == 1 {
+            let cut = bounds.iter().copied().filter(|&b| b > 0 && b < csv.len() && !csv[b..].starts_with('\u{feff}')).nth(bounds.len() / 3);
+            if let Some(cut) = cut {
+                let two = build_parts(None, time, &w.desc, Some(mtext.as_bytes()), &[Part::Bytes(csv[..cut].as_bytes()), Part::Bytes(csv[cut..].as_bytes())]);
+                run.bump("entry:two-sources");
+                if two.as_ref().ok() != Some(sb) {
+                    run.fail(idx, "c05:sources:split", &format!("the lexicon read as two sources (cut at byte {}) compiles to different bytes than read as one", cut));
+                }
+            }
+            let path = std::path::PathBuf::from(format!("{}/c05_lex_{}.csv", run.opts.out, idx));
+            if std::fs::write(&path, csv.as_bytes()).is_ok() {
+                let f = build_parts(None, time, &w.desc, Some(mtext.as_bytes()), &[Part::File(&path)]);
+                run.bump("entry:file-source");
+                if f.as_ref().ok() != Some(sb) {
+                    run.fail(idx, "c05:sources:file", "the lexicon read from a file compiles to different bytes than read from memory");
+                }
+                let _ = std::fs::remove_file(&path);
+            }
+        }
+        if sb.len() + ub.as_ref().map_or(0, |u| u.len()) < 200_000 {
+            let mut job = format!("{} {} {} {} {}", idx, time, hex(w.desc.as_bytes()), hex(mtext.as_bytes()), hex(csv.as_bytes()));
+            let mut want = fingerprint(sb);
+            if let (Some(ub), Some(ucsv)) = (ub, &ucsv) {
+                job.push_str(&format!(" {} {}", hex(w.udesc.as_bytes()), hex(ucsv.as_bytes())));
+                want.push(' ');
+                want.push_str(&fingerprint(ub));
+            }
+            child_jobs.push((idx, job, want));
         }
         // alignment: same bytes at an 8-aligned and at an odd address
         let (b0, s0) = at_alignment(sb, 0);
@@ -1001,5 +1252,26 @@ the parameters of every word, LexiconSet::lookup of every source key; non-trivia
         }
         run.bump("alignment-pairs");
         if fails == 0 { run.bump("oracle:clean"); }
+    }
+    // determinism across PROCESSES: one fresh process compiles every collected input again
+    if !child_jobs.is_empty() {
+        let dir = run.opts.out.clone();
+        let text: String = child_jobs.iter().map(|j| format!("{}\n", j.1)).collect();
+        let ok = std::fs::write(format!("{}/c05_child_in.txt", dir), text).is_ok();
+        let outp = if ok { std::env::current_exe().ok().and_then(|exe| std::process::Command::new(exe).args(["C05CHILD", "--out", &dir]).output().ok()) } else { None };
+        match outp {
+            Some(o) if o.status.success() => {
+                let got: std::collections::HashMap<usize, String> = String::from_utf8_lossy(&o.stdout).lines()
+                    .filter_map(|l| { let (a, b) = l.split_once(' ')?; Some((a.parse().ok()?, b.to_string())) }).collect();
+                for (idx, _, want) in &child_jobs {
+                    run.bump("determinism:process-recompiles");
+                    if got.get(idx) != Some(want) {
+                        run.fail(*idx, "c05:nondeterministic:process", &format!("a second process compiled the same inputs to different bytes: {:?} vs {}", got.get(idx), want));
+                    }
+                }
+            }
+            _ => { run.fail(0, "c05:nondeterministic:child", "the child process for the cross-process determinism check did not run"); }
+        }
+        let _ = std::fs::remove_file(format!("{}/c05_child_in.txt", dir));
     }
 }
